@@ -149,6 +149,10 @@ func (w *World) udpClientTraffic(cs *connState) gnet.Action {
 			data := outPayload(id, op.N)
 			before := len(w.k.UDPSent)
 			n, err := c.Write(data)
+			if ps.udpUnreach {
+				// the datagram goes nowhere; a later write may report the pending ICMP error
+				continue
+			}
 			if err != nil || n != op.N {
 				w.violate("C08", "client-write", "conn %d (udp client): Write of %d bytes returned (%d, %v)", cs.idx, op.N, n, err)
 				continue
@@ -212,6 +216,12 @@ func GenerateClient(seed uint64, prop, tier string) *Plan {
 			for j := r.Range(1, 4); j > 0; j-- {
 				cp.Peer = append(cp.Peer, PeerOp{K: "send", N: r.Pick(0, 1, 100, rb, rb+1, 1400)})
 				cp.Traffic = append(cp.Traffic, TStep{W: genUDPReplies(r)})
+			}
+			if r.Chance(1, 3) {
+				// the remote port disappears, one more datagram arrives (sent before),
+				// the client's reply to it is answered by ICMP
+				cp.Peer = append(cp.Peer, PeerOp{K: "unreach"}, PeerOp{K: "send", N: r.Pick(1, 100)})
+				cp.Traffic = append(cp.Traffic, TStep{W: []WOp{{M: "write", N: r.Pick(1, 100)}}})
 			}
 		} else {
 			if r.Chance(1, 3) {
